@@ -118,8 +118,8 @@ func (u *unit) prune(files []*ast.File, edits map[string][]edit) []Pruned {
 			stub := ""
 			switch v := d.(type) {
 			case *ast.FuncDecl:
-				if v.Recv == nil && v.Name.Name == "init" {
-					return append(out, Pruned{Pkg: u.dir, Decl: "(pruning given up: func init depends on a removed identifier)"})
+				if v.Recv == nil && (v.Name.Name == "init" || v.Name.Name == "TestMain") {
+					return append(out, Pruned{Pkg: u.dir, Decl: "(pruning given up: func " + v.Name.Name + " depends on a removed identifier)"})
 				}
 				pr.Decl = v.Name.Name
 				if v.Recv != nil && len(v.Recv.List) > 0 {
